@@ -202,12 +202,19 @@ func ZZ_C03_Reorg(k, canon, batch, nsteps int) {
 // ZZ_C02_Faults: a step with symbolic faults at every I/O point (single: at
 // most one), then a fault-free retry; compared with a fault-free step from the
 // same pre-state on the same frozen chain.
-func ZZ_C02_Faults(k, canon, batch, conc, single int) {
+func ZZ_C02_Faults(k, canon, batch, conc, single int) { zzC02Faults(k, canon, batch, conc, single, true) }
+
+// ZZ_C02_FaultsPlain: the same with a data plan whose blocks carry no hashes
+// (logs only): a failed partition cannot be mistaken for a reorg, so what a
+// step does with a partially loaded batch is visible.
+func ZZ_C02_FaultsPlain(k, batch, conc, single int) { zzC02Faults(k, k, batch, conc, single, false) }
+
+func zzC02Faults(k, canon, batch, conc, single int, withHash bool) {
 	zzReset()
-	zzvrf.Unwind(batch + 3)
+	zzvrf.Unwind(batch + conc + 3)
 	head := zzvrf.U64("head")
 	zzvrf.Assume(head > 1 && head < 1<<62)
-	src := &zzSource{withHash: true, headFixed: true, head: head}
+	src := &zzSource{withHash: withHash, headFixed: true, head: head}
 	pre := zzPreState("s", "ig", k, canon)
 	zzvrf.Assume(head > pre.cur[k-1].num)
 	snap := zzCommitted.clone()
